@@ -108,5 +108,68 @@ func main() {
 	if err := a.Close(); err != nil {
 		bad("Agent.Close: %v", err)
 	}
+	// the message type codec against RFC 5389 figure 3, all pairs and all wire values
+	for k := 0; k < 16384; k++ {
+		mth, cl := k/4, k%4
+		want := (mth & 0xf) | (mth&0x70)<<1 | (mth&0xf80)<<2 | (cl&1)<<4 | (cl&2)<<7
+		tp := stun.MessageType{Method: stun.Method(mth), Class: stun.MessageClass(cl)}
+		var back stun.MessageType
+		back.ReadValue(tp.Value())
+		if int(tp.Value()) != want || back != tp {
+			bad("MessageType %d/%d: value %#x want %#x, back %v", mth, cl, tp.Value(), want, back)
+		}
+	}
+	// URIs
+	for _, u := range []string{"stun:example.org", "stuns:example.org:5349", "turn:[2001:db8::1]:3478?transport=tcp", "turns:192.0.2.1?transport=udp", "stun:h:65535", "stun:h:0"} {
+		p, err := stun.ParseURI(u)
+		if err != nil {
+			bad("ParseURI(%q): %v", u, err)
+		}
+		q, err := stun.ParseURI(p.String())
+		if err != nil || *q != *p {
+			bad("round trip of %q through %q: %v %v", u, p.String(), q, err)
+		}
+	}
+	for _, u := range []string{"stun:h:65536", "stun:h:99999999999999999999", "stun:h:-1", "http://h", "stun:[::1"} {
+		if _, err := stun.ParseURI(u); err == nil {
+			bad("ParseURI(%q) accepted", u)
+		}
+	}
+	// typed attributes and integrity with keys around and beyond the block size
+	for _, kl := range []int{0, 1, 63, 64, 65, 200} {
+		key := make([]byte, kl)
+		for i := range key {
+			key[i] = byte(i * 7)
+		}
+		mm := stun.MustBuild(stun.TransactionID, stun.BindingRequest, stun.NewUsername("user"), stun.NewRealm("realm"),
+			stun.ErrorCodeAttribute{Code: 438, Reason: []byte("stale")}, stun.UnknownAttributes{0x8022, 0x0019},
+			&stun.XORMappedAddress{IP: []byte{0x20, 0x01, 0x0d, 0xb8, 0, 0, 0, 0, 0, 0, 0, 0, 0, 0, 0, 1}, Port: 65535},
+			stun.MessageIntegrity(key), stun.Fingerprint)
+		dd := new(stun.Message)
+		if err := stun.Decode(mm.Raw, dd); err != nil {
+			bad("Decode: %v", err)
+		}
+		var xa stun.XORMappedAddress
+		var ec stun.ErrorCodeAttribute
+		var ua stun.UnknownAttributes
+		if err := xa.GetFrom(dd); err != nil || xa.Port != 65535 || len(xa.IP) != 16 || xa.IP[15] != 1 {
+			bad("XOR-MAPPED-ADDRESS: %v %v", xa, err)
+		}
+		if err := ec.GetFrom(dd); err != nil || ec.Code != 438 || string(ec.Reason) != "stale" {
+			bad("ERROR-CODE: %v %v", ec, err)
+		}
+		if err := ua.GetFrom(dd); err != nil || len(ua) != 2 || ua[0] != 0x8022 {
+			bad("UNKNOWN-ATTRIBUTES: %v %v", ua, err)
+		}
+		if err := stun.MessageIntegrity(key).Check(dd); err != nil {
+			bad("integrity with a %d-byte key: %v", kl, err)
+		}
+		if err := stun.MessageIntegrity(append(key, 1)).Check(dd); err == nil {
+			bad("integrity with a wrong key accepted (%d)", kl)
+		}
+		if err := stun.Fingerprint.Check(dd); err != nil {
+			bad("fingerprint: %v", err)
+		}
+	}
 	fmt.Println("ok-386")
 }
